@@ -417,7 +417,12 @@ func runOssl(h int, s osslScn, rawScn json.RawMessage, b *build, d *diskPKI, sl 
 	tcp.Close()
 	if cerr != nil {
 		// what the server wrote on stderr before closing is in the pipe; give the collector a moment to read it
-		time.Sleep(40 * time.Millisecond)
+		for k := 0; k < 50; k++ {
+			time.Sleep(20 * time.Millisecond)
+			if el := srv.errSnapshot(); len(el) > sl.emark && strings.Contains(strings.Join(el[sl.emark:], "\n"), ":error:") {
+				break
+			}
+		}
 	}
 	serr := []string{}
 	for _, l := range sl.release(derr == nil) {
@@ -455,6 +460,7 @@ func serverView(res map[string]any, lines []string, b *build, args []string) {
 	sok, sni := false, false
 	sekm := []any{}
 	{
+		// (the summary block is flushed by s_server right after the handshake; the lines that follow it are not)
 		for _, l := range lines {
 			switch {
 			case strings.HasPrefix(l, "CIPHER is "):
